@@ -118,6 +118,7 @@ type Obligation struct {
 }
 
 type loopInfo struct {
+	countHdr T // map-range loops: ghost number of keys visited before this iteration (havocked at the header)
 	seenHdr T // map-range loops over string keys: ghost set of keys visited before this iteration (havocked at the header)
 	header  *ssa.BasicBlock
 	ordinal int
@@ -1353,12 +1354,15 @@ func (fx *FX) enterLoop(li *loopInfo, h *ssa.BasicBlock, conds []T, sts []*State
 	}
 	if fx.mapRangeLoop(li) && fx.stringKeyRange(li) {
 		li.seenHdr = fx.fresh("rangeseen", SKeySet)
+		li.countHdr = fx.fresh("rangecount", SInt)
+		fx.assume(tTrue, ge(li.countHdr, num(0)))
 	}
 	// entry obligations
 	for k := range sts {
 		env := fx.loopEnv(li, sts[k], func(phi *ssa.Phi) Val { return fx.val(phi.Edges[predIdx[k]]) }, phis)
 		if li.seenHdr.S != "" {
 			env.rangeSeen = T{"((as const (Array BSeq Bool)) false)", SKeySet}
+			env.rangeCount = num(0)
 		}
 		if li.lc != nil {
 			for _, c := range li.lc.Inv {
@@ -1404,8 +1408,40 @@ func (fx *FX) enterLoop(li *loopInfo, h *ssa.BasicBlock, conds []T, sts []*State
 		st.H = fx.fresh("Hloop", SHeap)
 		st.Hs = fx.fresh("Hsloop", SSHeap)
 	}
+	// A loop whose body allocates: the set of allocated objects at the header is an arbitrary superset of the one
+	// before the loop (objects of earlier iterations), so that an object allocated in this iteration is distinct
+	// from everything the loop-carried values refer to (those are allocated at the header, or nil).
+	allocates := false
+	for blk := range li.body {
+		for _, in := range blk.Instrs {
+			switch in.(type) {
+			case *ssa.Alloc, *ssa.MakeSlice, *ssa.MakeMap, *ssa.MakeInterface, *ssa.MakeClosure, ssa.CallInstruction:
+				allocates = true
+			}
+		}
+	}
+	if allocates {
+		preAlloc := st.Alloc
+		st.Alloc = fx.fresh("allocloop", SSet)
+		fx.line(fmt.Sprintf("(assert (forall ((r!l Int)) (! (=> (select %s r!l) (select %s r!l)) :pattern ((select %s r!l)))))", preAlloc.S, st.Alloc.S, st.Alloc.S))
+		fx.assume(tTrue, not(sel(st.Alloc, num(0))))
+	}
 	for _, phi := range phis {
 		fx.vals[phi] = fx.havoc("loop_"+phi.Comment, phi.Type(), tTrue)
+		// inferred invariant: a slice that starts at offset 0 of its backing object and is only ever re-bound to
+		// append(itself, ...) stays at offset 0 (append keeps the offset in place and returns offset 0 when it grows)
+		if sv, ok := fx.vals[phi].(VSlice); ok && fx.offsetZeroPhi(phi, h, li) {
+			sv.Off = num(0)
+			fx.vals[phi] = sv
+		}
+		if allocates {
+			ts := flatten(fx.vals[phi])
+			for i, l := range layout(phi.Type()) {
+				if l.kind == lkRef && i < len(ts) {
+					fx.assume(tTrue, or(eq(ts[i], num(0)), sel(st.Alloc, ts[i])))
+				}
+			}
+		}
 	}
 	st.Priv = map[*ssa.Alloc][2]T{}
 	li.st = st
@@ -1435,6 +1471,34 @@ func (fx *FX) enterLoop(li *loopInfo, h *ssa.BasicBlock, conds []T, sts []*State
 		// termination is an obligation of every loop: without a measure it cannot be discharged
 		fx.oblige("variant", fmt.Sprintf("loop%d.missing", li.ordinal), st.PC, tFalse, h.Instrs[0].Pos(), "loop has no decreases clause")
 	}
+}
+
+// offsetZeroPhi: every entry edge of the slice phi has a literal offset 0 and every back edge is append(phi, ...).
+func (fx *FX) offsetZeroPhi(phi *ssa.Phi, h *ssa.BasicBlock, li *loopInfo) bool {
+	for i, e := range phi.Edges {
+		if li.body[h.Preds[i]] {
+			c, ok := e.(*ssa.Call)
+			if !ok {
+				return false
+			}
+			bi, ok := c.Call.Value.(*ssa.Builtin)
+			if !ok || bi.Name() != "append" || c.Call.Args[0] != ssa.Value(phi) {
+				return false
+			}
+			continue
+		}
+		v, ok := fx.vals[e].(VSlice)
+		if !ok {
+			if _, isC := e.(*ssa.Const); isC {
+				continue // nil slice: offset 0
+			}
+			return false
+		}
+		if k, lit := isLit(v.Off); !lit || k != 0 {
+			return false
+		}
+	}
+	return true
 }
 
 // mapRangeLoop: the loop is a `for range m` over a map whose iterator is created outside the loop
@@ -1659,6 +1723,7 @@ func (fx *FX) loopEnv(li *loopInfo, st *State, phiVal func(*ssa.Phi) Val, phis [
 	}
 	env.inLoop = true
 	env.rangeSeen = li.seenHdr
+	env.rangeCount = li.countHdr
 	return env
 }
 
@@ -1713,6 +1778,7 @@ func (fx *FX) closeLoop(li *loopInfo, from *ssa.BasicBlock, succIdx int) {
 		if k, ok := fx.rangeKey(li); ok {
 			env.rangeSeen = sto(li.seenHdr, k, tTrue)
 		}
+		env.rangeCount = add(li.countHdr, num(1))
 	}
 	if li.lc != nil {
 		for _, c := range li.lc.Inv {
@@ -1740,6 +1806,7 @@ type Env struct {
 	inLoop       bool
 	calleeMode   bool
 	calleeParams map[string]Val
+	rangeCount   T // ghost: number of keys visited so far by the enclosing map-range loop
 	rangeSeen    T // ghost: keys visited so far by the enclosing map-range loop
 }
 
